@@ -293,7 +293,11 @@ psRes_t psX509ParseCertData(psPool_t *pool,
         }
         numParsed++;
         *tailp = current;
-        tailp = &(current->next);
+        /* psX509ParseCert can return more than one list entry */
+        while (*tailp)
+        {
+            tailp = &(*tailp)->next;
+        }
     }
     psFreeList(certDatas, pool);
     return numParsed;
